@@ -308,8 +308,10 @@ class Paragraph(BlockToken):
 
     def __new__(cls, lines):
         if not isinstance(lines, list):
-            # setext heading token, return directly
-            return lines
+            # setext heading: read() hands over its lines as a tuple. The token is built
+            # here, i.e. together with all other tokens, after the link reference
+            # definitions of the whole document have been collected.
+            return SetextHeading(list(lines))
         return super().__new__(cls)
 
     def __init__(self, lines):
@@ -334,7 +336,7 @@ class Paragraph(BlockToken):
             # check if the paragraph being parsed is in fact a Setext heading
             if cls.parse_setext and cls.is_setext_heading(next_line):
                 line_buffer.append(next(lines))
-                return SetextHeading(line_buffer)
+                return tuple(line_buffer)
 
             # finish the check for paragraph-breaking tokens with the special case: ThematicBreak
             if ThematicBreak.check_interrupts_paragraph(lines):
